@@ -3,6 +3,9 @@
 # (or on the directory given as $1) and compares with /root/.vp/BASELINE.json stable_pass.
 # usage: tools/baseline.sh [repo-dir]   exit 0 iff every stable test passes
 set -u
+# one run at a time: regprocessor's TestZMQAuth binds a fixed 127.0.0.1 port, two concurrent runs hang
+exec 9>/var/tmp/baseline.lock
+flock 9
 SRC=${1:-/repo}
 S=$(mktemp -d /var/tmp/cjv.baseline.XXXXXX)
 trap 'rm -rf "$S"' EXIT
